@@ -4,6 +4,9 @@ import OsacaVerif.Lemmas.Pipeline
 /-
   End to end, part 1: the file.  Which lines exist, how they are numbered, and that the per-line data of
   the file is a map over the numbered texts of a function that sees the number only to store it.
+  For both ISAs: `BaseParser.parse_file` is one function, the two parser models transcribe it twice
+  (`ParseX86.parseFile`, `ParseA64.parseFile`); `parseFile_numbered` shows that both are the same numbering
+  of the same lines with the ISA's `parse_line` applied to each.
 -/
 namespace OsacaVerif.EndToEnd
 open OsacaVerif OsacaVerif.Text OsacaVerif.X86 OsacaVerif.ParseX86 OsacaVerif.Pipeline
@@ -15,13 +18,14 @@ def numbered (s : Nat) : Nat → List Txt → List (Nat × Txt)
   | i, l :: ls => if isBlank l then numbered s (i + 1) ls else (i + 1 + s, l) :: numbered s (i + 1) ls
 
 /-- one parsed line with its per-instruction data, from the TEXT alone; the number is only stored -/
-def lineOfText (m : Model) (num : Nat) (t : Txt) : Line :=
-  match parseLine t with
-  | .ok f => lineOf m num t f
+def lineOfText (isa : Operand.Isa) (m : Model) (num : Nat) (t : Txt) : Line :=
+  match parseLineOf isa t with
+  | .ok f => lineOf isa m num t f
   | .err _ => { pl := { sel := ⟨num, none, none, none, []⟩, text := t } }
 
 /-- the lines of a file given by its lines -/
-def textLines (m : Model) (ls : List Txt) : List Line := (numbered 0 0 ls).map fun p => lineOfText m p.1 p.2
+def textLines (isa : Operand.Isa) (m : Model) (ls : List Txt) : List Line :=
+  (numbered 0 0 ls).map fun p => lineOfText isa m p.1 p.2
 
 /-! ### numbering -/
 
@@ -117,24 +121,61 @@ theorem splitLines_joinLines (ls : List Txt) (hne : ls ≠ []) (hnl : ∀ l ∈ 
     splitLines (joinLines ls) = ls :=
   (split_unique (joinLines ls) ls ⟨hne, hnl, rfl⟩).symm
 
-theorem parseFile_numbered (content : Txt) :
+theorem parseFileX86_numbered (content : Txt) :
     parseFile 0 content = (numbered 0 0 (splitLines content)).map fun q => ⟨q.1, q.2, parseLine q.2⟩ :=
   fileLoop_numbered parseLine 0 0 (splitLines content)
 
+/-! the AArch64 parser model transcribes `parse_file` a second time: same lines, same blank test, same numbers -/
+
+theorem a64_splitLines (s : Txt) : ParseA64.splitLines s = splitLines s := by
+  induction s with
+  | nil => rfl
+  | cons c r ih =>
+    simp only [ParseA64.splitLines, splitLines, ih]
+    split
+    · rfl
+    · cases splitLines r <;> rfl
+
+theorem a64_isBlank (l : Txt) : ParseA64.isBlank l = isBlank l := rfl
+
+theorem a64_lineBase : Gen.A64.lineBase = 1 := by decide
+
+theorem parseLinesFrom_numbered (s i : Nat) (ls : List Txt) :
+    ParseA64.parseLinesFrom s i ls = (numbered s i ls).map fun q => ⟨q.1, q.2, ParseA64.parseLine q.2⟩ := by
+  induction ls generalizing i with
+  | nil => rfl
+  | cons l ls ih =>
+    simp only [ParseA64.parseLinesFrom, numbered, a64_isBlank, a64_lineBase]
+    split
+    · exact ih (i + 1)
+    · simp [ih (i + 1)]
+
+/-- **`parse_file` is the numbering of the non-blank lines with the ISA's `parse_line` on each** -/
+theorem parseFile_numbered (isa : Operand.Isa) (content : Txt) :
+    parseFileOf isa content =
+      (numbered 0 0 (splitLines content)).map fun q => ⟨q.1, q.2, parseLineOf isa q.2⟩ := by
+  cases isa with
+  | x86 =>
+    simp only [parseFileOf, parseFileX86_numbered, List.map_map, parseLineOf]
+    rfl
+  | a64 =>
+    simp only [parseFileOf, ParseA64.parseFile, parseLinesFrom_numbered, a64_splitLines, List.map_map, parseLineOf]
+    rfl
+
 /-! ### `collect` and the per-line data -/
 
-theorem collect_map (m : Model) (nt : List (Nat × Txt)) (fs : List (Nat × Txt × Form))
-    (h : collect (nt.map fun q => (⟨q.1, q.2, parseLine q.2⟩ : X86.PLine)) = .ok fs) :
-    linesOf m fs = nt.map fun p => lineOfText m p.1 p.2 := by
+theorem collect_map (isa : Operand.Isa) (m : Model) (nt : List (Nat × Txt)) (fs : List (Nat × Txt × Glue.Form))
+    (h : collect (nt.map fun q => (⟨q.1, q.2, parseLineOf isa q.2⟩ : FLine)) = .ok fs) :
+    linesOf isa m fs = nt.map fun p => lineOfText isa m p.1 p.2 := by
   induction nt generalizing fs with
   | nil => simp [collect] at h; subst h; rfl
   | cons q nt ih =>
     simp only [List.map_cons, collect] at h
-    cases hp : parseLine q.2 with
+    cases hp : parseLineOf isa q.2 with
     | err e => simp [hp] at h
     | ok f =>
       simp only [hp] at h
-      cases hc : collect (nt.map fun q => (⟨q.1, q.2, parseLine q.2⟩ : X86.PLine)) with
+      cases hc : collect (nt.map fun q => (⟨q.1, q.2, parseLineOf isa q.2⟩ : FLine)) with
       | error e => simp [hc] at h
       | ok r =>
         simp only [hc] at h
@@ -145,41 +186,43 @@ theorem collect_map (m : Model) (nt : List (Nat × Txt)) (fs : List (Nat × Txt 
 
 /-- **the per-line data of a file**: if the file parses, its lines are the numbered non-blank texts,
     each sent through `lineOfText` — a function of the model, the text, and (stored only) the number -/
-theorem linesOf_file (m : Model) (content : Txt) (fs : List (Nat × Txt × Form))
-    (h : collect (parseFile 0 content) = .ok fs) :
-    linesOf m fs = textLines m (splitLines content) := by
+theorem linesOf_file (isa : Operand.Isa) (m : Model) (content : Txt) (fs : List (Nat × Txt × Glue.Form))
+    (h : collect (parseFileOf isa content) = .ok fs) :
+    linesOf isa m fs = textLines isa m (splitLines content) := by
   rw [parseFile_numbered] at h
-  exact collect_map m _ fs h
+  exact collect_map isa m _ fs h
 
 /-! ### the number is only stored -/
 
 def setLineNum (n : Nat) (l : Line) : Line := { l with pl := { l.pl with sel := { l.pl.sel with num := n } } }
 
-theorem lineOfText_num (m : Model) (n n' : Nat) (t : Txt) :
-    lineOfText m n t = setLineNum n (lineOfText m n' t) := by
+theorem lineOfText_num (isa : Operand.Isa) (m : Model) (n n' : Nat) (t : Txt) :
+    lineOfText isa m n t = setLineNum n (lineOfText isa m n' t) := by
   unfold lineOfText
-  cases parseLine t with
+  cases parseLineOf isa t with
   | err e => rfl
   | ok f =>
     simp only [lineOf]
-    cases semOfStages m (stagesOf m f) <;> rfl
+    cases semOfStages m (stagesOf isa m f) <;> rfl
 
-@[simp] theorem lineOfText_pl_num (m : Model) (n : Nat) (t : Txt) : (lineOfText m n t).pl.num = n := by
+@[simp] theorem lineOfText_pl_num (isa : Operand.Isa) (m : Model) (n : Nat) (t : Txt) :
+    (lineOfText isa m n t).pl.num = n := by
   unfold lineOfText
-  cases parseLine t with
+  cases parseLineOf isa t with
   | err e => rfl
   | ok f =>
     simp only [lineOf]
-    cases semOfStages m (stagesOf m f) <;> rfl
+    cases semOfStages m (stagesOf isa m f) <;> rfl
 
-theorem textLines_nums (m : Model) (ls : List Txt) :
-    (textLines m ls).map (·.pl.num) = (numbered 0 0 ls).map (·.1) := by
+theorem textLines_nums (isa : Operand.Isa) (m : Model) (ls : List Txt) :
+    (textLines isa m ls).map (·.pl.num) = (numbered 0 0 ls).map (·.1) := by
   simp [textLines, List.map_map, Function.comp_def]
 
-theorem textLines_increasing (m : Model) (ls : List Txt) : Increasing ((textLines m ls).map (·.pl)) := by
+theorem textLines_increasing (isa : Operand.Isa) (m : Model) (ls : List Txt) :
+    Increasing ((textLines isa m ls).map (·.pl)) := by
   unfold Increasing
   rw [List.map_map]
-  have := textLines_nums m ls
+  have := textLines_nums isa m ls
   simp only [Function.comp_def] at this ⊢
   rw [this]
   exact numbered_sorted 0 0 ls
